@@ -156,7 +156,7 @@ def build_cases(ctx):
     return cases
 
 
-def run_cases(ctx, cases):
+def run_cases(ctx, cases, tie=True):
     res = ctx.run_impl("cursor_impl.py", {"n_atoms": 4, "formats": sorted({c["fmt"] for c in cases}),
                                           "cursor": cases, "load": []})
     outs = res["cursor"]
@@ -202,7 +202,7 @@ def run_cases(ctx, cases):
                 agree = v
                 break
         explained[fmt] = agree
-        if agree is None:
+        if agree is None and tie:
             worst = min(variants, key=lambda v: sum((i, v) in badset for i in idx))
             ex = [i for i in idx if (i, worst) in badset]
             ex.sort(key=lambda i: len(cases[i]["ops"]))
@@ -226,6 +226,8 @@ def run_cases(ctx, cases):
             tags = {"fmt": fmt, "explained_by": VNAME[v] if v not in (None, SPEC) else None}
             ctx.fail("%s: file object deviates from the cursor contract (explained by %s)" % (fmt, tags["explained_by"]),
                      c, observed=o, expected="abstract cursor (Coq spec_run)", tags=tags)
+    if not tie:
+        return
     # 3. arc: listed as seekable by the property but seek/tell/len are not implemented
     probe = {"fmt": "arc", "T": 5, "ops": [[0, "read", 2], [0, "tell", None], [0, "seek", 0]], "handles": 1,
              "atom_indices": None}
@@ -242,9 +244,29 @@ def correspond(ctx):
 
 
 def search(ctx, broken):
-    # the correspondence stage already compares the implementation with the abstract cursor
-    # (the property itself) on every in-range case; nothing else to search with.
-    pass
+    """A correspondence broke without an in-range counterexample in the main stream: aim a larger in-range
+    stream (random histories + exhaustive length 3) at the formats whose model no longer matches and compare
+    the implementation with the abstract cursor (the property itself)."""
+    fmts = []
+    for b in broken:
+        if b["name"].startswith("correspondence:cursor-model["):
+            fmts.append(b["name"].split("[")[1].rstrip("]"))
+    if not fmts:
+        fmts = [f for f in FORMATS if FORMATS[f][2]]
+    cases = []
+    for fmt in fmts:
+        if not FORMATS[fmt][2]:
+            continue
+        for T in (5, 9, 12):
+            for _ in range(150):
+                ops = gen_history(ctx.rng, T, ctx.rng.randint(2, 10), fmt, False)
+                if ops:
+                    cases.append({"fmt": fmt, "T": T, "ops": ops, "handles": 2, "atom_indices": None,
+                                  "stream": "inrange"})
+        for ops in exhaustive_histories(5, 3, fmt):
+            cases.append({"fmt": fmt, "T": 5, "ops": ops, "handles": 2, "atom_indices": None, "stream": "inrange"})
+    ctx.log("search: %d extra in-range histories on %s" % (len(cases), fmts))
+    run_cases(ctx, cases, tie=False)
 
 
 def replay(ctx, rec):
